@@ -38,8 +38,8 @@ def step_line(g, ei):
     _, _, name, args = g.edges[ei]
     if name == "OnLive":        # Mute / Unmute / Invalidate are instances of OnLive(h, field, value, name)
         return "S op=%s h=%s" % (args[3], args[0])
-    if name == "Subscribe":
-        return "S op=Subscribe h=%s sc=%s" % (args[0], sc_str(args[1]))
+    if name in ("Subscribe", "SubscribeMuted"):
+        return "S op=%s h=%s sc=%s" % (name, args[0], sc_str(args[1]))
     if name == "Swap":
         return "S op=Swap h=%s h2=%s" % (args[0], args[1])
     if name == "Notify":
@@ -141,7 +141,9 @@ def y_scripts(seed, count, reentrant):
                     for _ in range(rnd.randrange(1, 3)):
                         k = rnd.choice(["unsub", "mute", "unmute", "inval", "sub", "notify"])
                         sc.append({"k": k, "t": 0 if k in ("sub", "notify") else rnd.randrange(0, 12)})
-                steps.append(("Subscribe", h, "", 0, sc))
+                steps.append(("Subscribe" if reentrant or rnd.random() < 0.8 else "SubscribeMuted", h, "", 0, sc))
+            elif r < 0.31 and not reentrant:
+                steps.append(("UnsubF", h, "", 0, []))
             elif r < 0.33:
                 steps.append(("UnsubH", h, "", 0, []))
             elif r < 0.43:
@@ -159,8 +161,8 @@ def y_scripts(seed, count, reentrant):
         usub = 1 if (not reentrant and n % 4 == 1) else 0   # every fourth plain history: handles are USubscriptions
         lines.append("X %s sig=%s maxsubs=40 filter=1 usub=%d" % (xid, sig, usub))
         for op, h, h2, a, sc in steps:
-            if op == "Subscribe":
-                lines.append("S op=Subscribe h=%s sc=%s" % (h, sc_str(sc)))
+            if op in ("Subscribe", "SubscribeMuted"):
+                lines.append("S op=%s h=%s sc=%s" % (op, h, sc_str(sc)))
             elif op == "Swap":
                 lines.append("S op=Swap h=%s h2=%s" % (h, h2))
             elif op == "Notify":
